@@ -158,10 +158,15 @@ def Valid_perplexity (input target : Shp) : Bool :=
 def Valid_frequency (input : Shp) : Bool := ndim input == 1
 def Valid_num_collisions (input : Shp) : Bool := ndim input == 1
 
-/-- x, y of equal shape (n,) [n_tasks = 1] or (n_tasks, n), with at least one element
+/-- a 1-D argument is the one-row layout (1, n) -/
+def norm1 (s : Shp) : Shp := if ndim s == 1 then 1 :: s else s
+
+/-- x, y: (n,) or (n_tasks, n) each — a 1-D argument is the (1, n) layout, so x (n,) with y (1, n) is the same
+    single-task curve (coordinator decision: sample and task counts agree, nothing is broadcast) — with equal
+    sample counts, n_tasks rows and at least one element
     ("Raises ValueError: if x and y [do not] have at least 1 element") -/
 def Valid_auc (x y : Shp) (n_tasks : Int) : Bool :=
-  Valid_tasks x y n_tasks && numel x != 0
+  Valid_tasks (norm1 x) (norm1 y) n_tasks && numel x != 0
 
 /-- x (n,), y (m,) 1-D and non-empty (an empirical distribution needs an observation);
     weights "must have the same length as" their values -/
@@ -210,9 +215,7 @@ def patterns_mean_squared_error : PatR := [
 def patterns_r2_score : Pat2 := [
   ("ndim=0", fun i t => i == t && ndim i == 0)]
 
-def patterns_auc : PatT := [
-  ("x=(n,),y=(1,n)", fun x y T => ndim x == 1 && y == 1 :: x && T == 1 && numel x != 0),
-  ("x=(1,n),y=(n,)", fun x y T => ndim y == 1 && x == 1 :: y && T == 1 && numel y != 0)]
+def patterns_auc : PatT := []
 
 def patterns_wasserstein : List (String × (Shp → Shp → Option Shp → Option Shp → Bool)) := [
   ("x.ndim=0", fun x y xw yw => ndim x == 0 && decide (ndim y ≤ 1) && numel y != 0 && weightOk x xw && weightOk y yw),
@@ -278,7 +281,6 @@ def gapTable : List (String × (CallArgs → List String)) := [
   ("click_through_rate", fun a => names patterns_click_through_rate (fun p => p (a.shape "input") (a.oshape "weights") (a.int "num_tasks"))),
   ("mean_squared_error", fun a => names patterns_mean_squared_error (fun p => p (a.shape "input") (a.shape "target") (a.oshape "sample_weight"))),
   ("r2_score", fun a => names patterns_r2_score (fun p => p (a.shape "input") (a.shape "target"))),
-  ("auc", fun a => names patterns_auc (fun p => p (a.shape "x") (a.shape "y") (a.int "n_tasks"))),
   ("wasserstein", fun a => names patterns_wasserstein (fun p => p (a.shape "x") (a.shape "y") (a.oshape "x_weights") (a.oshape "y_weights")))]
 
 /-- names of all gap patterns per check helper (driver request `gap.names`) -/
@@ -290,7 +292,6 @@ def gapNames : List (String × List String) := [
   ("weighted_calibration", patterns_weighted_calibration.map (·.1)),
   ("mean_squared_error", patterns_mean_squared_error.map (·.1)),
   ("r2_score", patterns_r2_score.map (·.1)),
-  ("auc", patterns_auc.map (·.1)),
   ("wasserstein", patterns_wasserstein.map (·.1))]
 
 end TE.ShapeSpec
